@@ -1065,10 +1065,12 @@ impl<A: Subject> Runner<A> {
     let mid = a.snap(64);
     let mut ret = Res::Unit;
     if matches!(op, Op::F(_)) {
-      if or & O_RELEASE != 0 && (mid.allocated != pre.allocated || mid.discarded != pre.discarded || mid.nodes != pre.nodes) {
+      let released_anyway = mid.allocated != pre.allocated || mid.discarded != pre.discarded || mid.nodes != pre.nodes;
+      if or & O_RELEASE != 0 && released_anyway {
         v.push(Viol { flag: O_RELEASE, class: "detached-drop-released".into(), msg: format!("dropping a detached handle changed the arena: {:?} -> {:?}", pre, mid) });
       }
-      if bcap > 0 {
+      // never release a range twice: if the detached drop already gave it back, the explicit call is skipped
+      if bcap > 0 && !released_anyway {
         ret = Res::Bool(unsafe { a.dealloc(boff as u32, bcap as u32) });
       }
     }
